@@ -131,6 +131,30 @@ fn play(turns: usize, seed: u64, trace: Option<String>) -> Result<String, String
     let cp = cl.can_pass(true);
     let th = cl.transposition_hash();
     let iter_len = cl.unwrap_play_phase().hash_history().iter().count();
+    // "querying a state" holds at every step of a turn: walk one more turn to step 3 on a clone and ask each
+    // state on the way for its result, its pass availability and both action lists (the fourth-step filter of
+    // the repetition rules reads the whole history only at step 3)
+    let mut w = cl.clone();
+    for _ in 0..3 {
+        let cw = cells(w.piece_board());
+        let me = if w.is_p1_turn_to_move() { 1 } else { 2 };
+        let step = w.valid_actions().into_iter().find(|a| match a {
+            Action::Move(sq, d) => {
+                let v = cw[sq.index()];
+                v != 0 && owner(v) == me && v != 1 && v != 7
+                    && dest_of(sq.index(), *d).map_or(false, |x| !TRAPS.contains(&x))
+                    && w.trapped_animal_for_action(a).is_none()
+            }
+            _ => false,
+        });
+        let a = match step {
+            Some(a) => a,
+            None => break,
+        };
+        w = w.take_action(&a);
+        std::hint::black_box((w.is_terminal(), w.can_pass(true), w.valid_actions().len(), w.valid_actions_no_rep().len(), w.transposition_hash()));
+    }
+    drop(w);
     drop(cl);
     let tail_len = gs.unwrap_play_phase().hash_history().tail().len();
     drop(gs);
